@@ -22,6 +22,14 @@ Theorem C16_tmux : forall ty pl s pend rest,
 Proof. exact tmux_recovered. Qed.
 Print Assumptions C16_tmux.
 
+(* stripTmuxStatusLine on its own: for every text without ESC and every way of inserting
+   complete status redraws ESC P = t1 ESC P = t2 ESC \ into it (any number, at any offsets,
+   with a truncated one at the very end if any), the text comes back *)
+Theorem C16_strip_status : forall l s,
+  with_status l s -> forallb (fun b => negb (b =? ESC)) l = true -> strip_tmux_status s = l.
+Proof. exact strip_status_direct. Qed.
+Print Assumptions C16_strip_status.
+
 (* Windows console: padding, VT100 sequences, newlines, cursor moves, re-prints after
    newline + move, cursor-home redraws (relation [win_noisy]); [J] = letters of unrelated
    output in front; every chunking and cursor position.  What is left unread is the stream
